@@ -163,6 +163,15 @@ D = {
  ('CachingRoundTripper.RoundTrip','nilcheck:response != nil'):T('test'),
  ('CachingRoundTripper.RoundTrip','rec:r.wrappedTransport.RoundTrip'):T('not a self call: the wrapped transport (same method name)'),
  ('CachingRoundTripper.cacheResponse','lencheck:len(reasons) > 0'):T('test'),
+ ('ResolveSubjectDID','range:credentials'):T('bounded loop (model: Cred.resolveLoop)'),
+ ('ResolveSubjectDID','deref:*sid'):S('ResolveSubjectDID:*sid'),
+ ('PresenterIsCredentialSubject','deref:*signerDID'):T('after err == nil of PresentationSigner, which returns a non-nil DID on every ok path (model: Cred.presentationSigner)'),
+ ('ParseLDProof','lencheck:len(proofs) != 1'):T('guard of proofs[0] (Cfg.proofCountExact)'),
+ ('ParseLDProof','index:proofs[0]'):S('ParseLDProof:proofs[0]'),
+ ('JWTKidAlg','lencheck:len(j.Signatures()) != 1'):T('guard of j.Signatures()[0] (Jwx.Cfg.kidAlgSigGuard)'),
+ ('JWTKidAlg','index:j.Signatures()[0]'):S('JWTKidAlg:j.Signatures()[0]'),
+ ('ParseJWS','lencheck:len(signatures) != 1'):T('guard of signatures[0] (Jwx.Cfg.jwsSigGuard)'),
+ ('ParseJWS','index:signatures[0]'):S('ParseJWS:signatures[0]'),
 }
 # functions that are NOT (or only partly) inside a model: every partial operation is listed with the harness entry point that samples it
 SAMPLED = {}
